@@ -254,6 +254,11 @@ Definition parse_between (v : gval) : pres (Z * Z) :=
     | VSlice _ _ [VInt _ l; VInt _ r] => fin l r
     | VSlice _ _ _ => PErr
     | _ => PUnmodelled end
+  else if ty_in sw TSiface t then      (* a pair as decoded from JSON *)
+    match v with
+    | VList _ [a; b] => pbind (parse_integer_number true a) (fun l => pbind (parse_integer_number true b) (fun r => fin l r))
+    | VList _ _ => PErr
+    | _ => PUnmodelled end
   else if ty_in sw Tstring t then
     match v with
     | VStr s => match range_desc s with Some (st, e, _) => fin st e | None => PErr end
